@@ -296,6 +296,12 @@ def build5(name="OPT"):
     m.add("R1", Type("REAL"))
     m.add("Ch", Type("CHOICE", comps=[Comp("ca", Type("INTEGER")), Comp("cb", Type("CHOICE", comps=[Comp("cx", Type("BOOLEAN")), Comp("cy", Type("REF", ref="Code"))])),
                                       Comp("cl", Type("SEQUENCE OF", elem=Type("REF", ref="N2")))]))
+    # untagged CHOICE inside untagged CHOICE (manual tags switch automatic tagging off for these types): the outermost tag
+    # of the value is found through two levels of alternatives, which -findirect-choice holds by pointer
+    m.add("Inner", Type("CHOICE", comps=[Comp("ia", Type("INTEGER", tag=("C", 0, None))), Comp("ib", Type("IA5String", tag=("C", 1, None)))]))
+    m.add("Outer", Type("CHOICE", comps=[Comp("oi", Type("REF", ref="Inner")), Comp("on", Type("NULL", tag=("C", 7, None)))]))
+    m.add("USet", Type("SET", comps=[Comp("tail", Type("INTEGER", tag=("C", 5, None))), Comp("body", Type("REF", ref="Outer"))]))
+    m.add("Wrap3", Type("CHOICE", comps=[Comp("w", Type("REF", ref="Outer")), Comp("z", Type("BOOLEAN", tag=("C", 9, None)))]))
     for t in m.types.values():
         _gen._set_module(t, m)
     m.finalize()
@@ -326,6 +332,14 @@ def values5(mod, name, rng, quick):
         out = [0.0, 1.0, -2.5, 1e100, 0.1, 5e-324, float("inf")]
     elif name == "Ch":
         out = [("ca", 5), ("cb", ("cx", True)), ("cb", ("cy", "abz")), ("cl", [-5, 0, 5]), ("cl", [])]
+    elif name == "Inner":
+        out = [("ia", 7), ("ib", "abc")]
+    elif name == "Outer":
+        out = [("oi", ("ia", 7)), ("oi", ("ib", "abc")), ("on", None)]
+    elif name == "USet":
+        out = [{"tail": 42, "body": ("oi", ("ia", 7))}, {"tail": 42, "body": ("oi", ("ib", "x"))}, {"tail": -1, "body": ("on", None)}]
+    elif name == "Wrap3":
+        out = [("w", ("oi", ("ia", 7))), ("w", ("oi", ("ib", "abc"))), ("w", ("on", None)), ("z", True)]
     return out
 
 
